@@ -43,6 +43,27 @@ def call(op: str, a: dict) -> dict:
             same = np.allclose(F, K.full().data, atol=1e-9)
             return {"st": "ok", "all_factors_equal": bool(eq), "full_symmetric": bool(full_sym),
                     "passes": bool(S.issymmetric()), "idempotent": bool(idem), "same_tensor": bool(same)}
+        if op == "k_issymmetric":
+            n, N, R = a["n"], a["N"], a["R"]
+            rng = np.random.RandomState(a["seed"])
+            V = rng.randint(1, 4, size=(n, R)).astype(float)
+            U = [V.copy() for _ in range(N)]
+            m = int(rng.randint(1, N))
+            pert = a["perturb"]
+            if pert in ("rel1e-7", "rel1e-9", "rel1e-12"):
+                U[m][0, 0] *= 1 + float(pert[3:])
+            elif pert == "entry":
+                U[m][n - 1, R - 1] += 1.0
+            elif pert == "scaled":
+                U[m] = U[m] * (1 + 2.0 ** -30)
+            K = ttb.ktensor(U, rng.randint(1, 4, size=R).astype(float))
+            val, diffs = K.issymmetric(return_diffs=True)
+            val2 = K.issymmetric()
+            if bool(val) != bool(val2):
+                return {"st": "answer-depends-on-return_diffs"}
+            F = K.full().data
+            full_sym = all(np.array_equal(F, np.transpose(F, p)) for p in itertools.permutations(range(N)))
+            return {"st": "ok", "val": bool(val), "full_symmetric": bool(full_sym), "diffs_zero": bool(np.all(diffs == 0))}
         X = bind.g_dense({"shape": a["X"]["shape"], "v": a["X"]["v"]}, dtype=(int if a.get("dtype") == "int" else float))
         if a.get("dtype") == "inf" and op == "issymmetric":
             # whether a tensor is symmetric depends only on which entries are equal: an injective relabelling of the values
@@ -53,6 +74,18 @@ def call(op: str, a: dict) -> dict:
                 d[X.data == v.max()] = np.inf
                 d[X.data == v.min()] = -np.inf
                 X = ttb.tensor(d)
+        unscale = 1.0
+        if a.get("dtype") == "int8":
+            # symmetrisation is linear and the symmetry question is scale free: the same tensor times 32, stored in 8 bits
+            # (each entry fits, the sum over the mode permutations does not)
+            v = np.array(a["X"]["v"], dtype=float)
+            if v.size and np.all(v == np.round(v)) and np.max(np.abs(v)) <= 3:
+                X = ttb.tensor((X.data * 32).astype(np.int8))
+                unscale = 32.0
+        if a.get("dtype") == "bool":
+            v = np.array(a["X"]["v"], dtype=float)
+            if v.size and np.all((v == 0) | (v == 1)):
+                X = ttb.tensor(X.data.astype(bool))
         g = grp_array(a["grps"])
         ver = None if a["version"] == 0 else 1
         if op == "symmetrize":
@@ -60,7 +93,7 @@ def call(op: str, a: dict) -> dict:
             K = 1
             for gr in a["grps"]:
                 K *= math.factorial(len(gr))
-            scaled = ttb.tensor(S.data * K)
+            scaled = ttb.tensor(S.data.astype(float) * K / unscale)
             S2 = S.symmetrize(g, ver) if ver else S.symmetrize(g)
             return {"st": "ok", "scaled": bind.a_dense(scaled), "passes": bool(S.issymmetric(g)),
                     "idempotent": bool(np.allclose(S2.data, S.data, atol=1e-12))}
@@ -82,8 +115,10 @@ def site_of(ev) -> str:
     a = ev["args"]
     if ev["op"] == "k_symmetrize":
         return "ktensor.symmetrize"
+    if ev["op"] == "k_issymmetric":
+        return "ktensor.issymmetric"
     return f"tensor.{ev['op']}(version={a['version']}" + (",details" if a.get("details") else "") + \
-        (",int-dtype" if a.get("dtype") == "int" else "") + ")"
+        (",int-dtype" if a.get("dtype") in ("int", "int8", "bool") else "") + ")"
 
 
 def record(stim: dict) -> dict:
@@ -112,7 +147,7 @@ def main(tier: str) -> int:
     stimuli = []
     for s_ in r.json:
         # presentation: the same abstract tensor held with float and with integer dtype
-        for dt in ("float", "int") + (("inf",) if s_["op"] == "issymmetric" else ()):
+        for dt in ("float", "int", "int8", "bool") + (("inf",) if s_["op"] == "issymmetric" else ()):
             stimuli.append({"op": s_["op"], "a": dict(s_["a"], dtype=dt)})
     # Kruskal symmetrisation: observation contract on seeded integer instances
     for n in (2, 3):
@@ -122,6 +157,13 @@ def main(tier: str) -> int:
                     for sym in (False, True):
                         stimuli.append({"op": "k_symmetrize", "a": {"n": n, "N": N, "R": R, "seed": seed + core.seed(),
                                                                      "symmetric_input": sym}})
+    for n in (2, 3):
+        for N in (2, 3, 4):
+            for R in (1, 2):
+                for pert in ("none", "rel1e-7", "rel1e-9", "rel1e-12", "entry", "scaled"):
+                    for seed in range(2 if tier == "quick" else 8):
+                        stimuli.append({"op": "k_issymmetric", "a": {"n": n, "N": N, "R": R, "seed": seed + core.seed(),
+                                                                      "perturb": pert}})
     behaviours = [{"ev": stimuli[i:i + 40]} for i in range(0, len(stimuli), 40)]
     from collections import Counter
     out.notes["calls_per_op"] = dict(Counter(s["op"] for s in stimuli))
